@@ -336,6 +336,11 @@ func runW1(t *testing.T, job *Job, seed uint64, rp *Replay) RunOut {
 	r := simrt.NewRng(seed, "workload")
 	c := genW1(job.Prop, job.Tier, r)
 	if rp != nil && rp.Override {
+		if quantifierOK(c.d, c.script) && !quantifierOK(c.d, rp.Script) {
+			// a shrunk script that left the quantifier of the action statements: not a candidate
+			ro.Probes["minimiser_candidate_outside_quantifier"]++
+			return ro
+		}
 		c.script = rp.Script
 		c.unplugs = []int{-1}
 	}
